@@ -376,9 +376,17 @@ class SqliteRecorder(CaseRecorder):
                 constraints = driver._cons
                 objectives = driver._objs
 
-            # merge current abs2prom and prom2abs with this system's version
-            self._abs2prom['input'].update(system._resolver.abs2prom_iter('input'))
-            self._abs2prom['output'].update(system._resolver.abs2prom_iter('output'))
+            # merge current abs2prom and prom2abs with this system's version.
+            # When several requesters at different levels of the hierarchy (e.g. the model and
+            # one of its components) record to this file, the promoted names of the highest level
+            # win, whatever the order in which the requesters started up.
+            depth = system.pathname.count('.') + 1 if system.pathname else 0
+            levels = self.__dict__.setdefault('_abs2prom_depth', {})
+            for io in ('input', 'output'):
+                for absname, prom in system._resolver.abs2prom_iter(io):
+                    if levels.get((io, absname), depth) >= depth:
+                        levels[(io, absname)] = depth
+                        self._abs2prom[io][absname] = prom
             for v, abs_names in system._resolver.prom2abs_iter('input'):
                 if v not in self._prom2abs['input']:
                     self._prom2abs['input'][v] = abs_names.copy()
